@@ -19,5 +19,5 @@ INIT Init
 NEXT Next
 VIEW view
 INVARIANTS TypeOK Consistent MemAgreesWithDisk NextStoreSucceeds StateReadsCorrect
-PROPERTIES FailedWriteAppliesNothing
+PROPERTIES FailedWriteAppliesNothing RestartIsNoOp
 CHECK_DEADLOCK FALSE
